@@ -45,15 +45,20 @@ func (r *rec) action(i int) (int, int, int) {
 	return 100 + i, 200 + i, 300 + i
 }
 
-func scenario(arity, n int, bound int) schk.Scenario { return scenarioX(arity, n, bound, "") }
+func scenario(arity, n int, bound int) schk.Scenario { return scenarioX(arity, n, bound, "", false) }
 
 // scenarioX: exit = "" (all actions return), "goexit" (caller 0's action leaves through
 // runtime.Goexit, like t.FailNow inside it) or "panic" (caller 0's action panics and caller 0
 // recovers around Do). Either way that action counts as THE invocation: no other function may run.
-func scenarioX(arity, n int, bound int, exit string) schk.Scenario {
+// twice: every caller calls Do a second time straight after the first (a "later" call that overlaps
+// the other callers' first ones); both calls must return the one invocation's results.
+func scenarioX(arity, n int, bound int, exit string, twice bool) schk.Scenario {
 	name := fmt.Sprintf("Once%d/%d-callers", arity, n)
 	if exit != "" {
 		name += "/caller0-action-" + exit
+	}
+	if twice {
+		name += "/two-calls-each"
 	}
 	return schk.Scenario{
 		Name: name, Bound: bound, RaceBound: min(bound, 2),
@@ -89,6 +94,14 @@ func scenarioX(arity, n int, bound int, exit string) schk.Scenario {
 					vrt.Begin()
 					got := do(i)
 					vrt.End()
+					if twice {
+						vrt.Begin()
+						again := do(i)
+						vrt.End()
+						if again != got {
+							got = [3]int{-1, again[0], got[0]} // reported as a wrong result below
+						}
+					}
 					r.ret[i] = got
 					r.returned[i] = true
 					r.sawDone[i] = r.completed // a plain read: must be ordered after the action by Do itself
@@ -149,14 +162,18 @@ func main() {
 		scs = append(scs, scenario(arity, 2, -1))
 		scs = append(scs, scenario(arity, 3, ev.Pick(r, 3, -1)))
 		if r.Thorough() {
-			scs = append(scs, scenario(arity, 4, 2))
+			scs = append(scs, scenario(arity, 4, -1), scenario(arity, 5, -1), scenario(arity, 6, 3))
 		}
 		for _, exit := range []string{"goexit", "panic"} {
-			scs = append(scs, scenarioX(arity, 2, -1, exit), scenarioX(arity, 3, ev.Pick(r, 2, -1), exit))
+			scs = append(scs, scenarioX(arity, 2, -1, exit, false), scenarioX(arity, 3, ev.Pick(r, 2, -1), exit, false))
+			if r.Thorough() {
+				scs = append(scs, scenarioX(arity, 4, -1, exit, false), scenarioX(arity, 3, -1, exit, true))
+			}
 		}
+		scs = append(scs, scenarioX(arity, 2, -1, "", true), scenarioX(arity, 3, ev.Pick(r, 2, -1), "", true))
 	}
 	schk.Main(r, scs, ev.Pick(r, 40*time.Second, 600*time.Second), func(r *ev.Run) {
-		r.Set("rule", "controlled scheduler over the instrumented sync2 package: 2, 3 (and 4) concurrent Do callers on one OnceN value, each passing its own function (distinct results, invocation counter, two internal scheduling points, completion flag written last), plus a caller after quiescence; every interleaving of the visible operations (atomic loads/stores, mutex operations of the Once, the action's internal points) within the stated preemption bound, or all of them; the same scenarios run under the race detector inside every explored schedule")
+		r.Set("rule", "controlled scheduler over the instrumented sync2 package: 2, 3 (thorough: 4 and 5 without a preemption bound, 6 with bound 3) concurrent Do callers on one OnceN value, each passing its own function (distinct results, invocation counter, two internal scheduling points, completion flag written last), plus a caller after quiescence; variants where caller 0's action leaves through runtime.Goexit or a panic, and where every caller calls Do twice in a row; every interleaving of the visible operations (atomic loads/stores, mutex operations of the Once, the action's internal points) within the stated preemption bound, or all of them; the same scenarios run under the race detector inside every explored schedule")
 		r.Assume("sync.Once is modelled by the standard algorithm (atomic done flag + mutex) re-expressed over the instrumented primitives")
 	})
 }
